@@ -38,6 +38,27 @@ type Run struct {
 	Replay   bool
 	ended    bool
 	reseed   func(uint64)
+	lastEl   time.Duration
+	leakOver *string
+}
+
+// SetLeakSig overrides, for this run, the signature reported when goroutines of
+// the bubble remain blocked after the scenario ("" = treat as harness error). A
+// world uses it when a leak is the known consequence of a finding it already
+// judged under a more specific signature.
+func (r *Run) SetLeakSig(sig string) {
+	r.mu.Lock()
+	r.leakOver = &sig
+	r.mu.Unlock()
+}
+
+func (r *Run) leakSig(def string) string {
+	r.mu.Lock()
+	defer r.mu.Unlock()
+	if r.leakOver != nil {
+		return *r.leakOver
+	}
+	return def
 }
 
 // Reseed re-initialises crypto/rand and math/rand to the state they had at the
@@ -71,6 +92,7 @@ func (r *Run) Logf(format string, a ...any) {
 		el = r.SimTime
 	} else if !r.start.IsZero() {
 		el = time.Since(r.start)
+		r.lastEl = el
 	}
 	line = fmt.Sprintf("t=%-12v %s", el, line)
 	for i := 0; i < len(line); i++ {
